@@ -71,6 +71,31 @@ impl FdGen {
                 body.insert(pos, PG::InFd(T::Var(v), self.domain(r)));
             }
         }
+        // … in particular a second domain with the SAME bounds and holes inside (the intersection keeps min and max and
+        // loses interior values: seeded change C17-e), after the first one
+        if r.chance(1, 4) {
+            let v = r.below(self.nv);
+            let first = body.iter().position(|g| matches!(g, PG::InFd(T::Var(k), _) if *k == v));
+            if let Some(i) = first {
+                if let PG::InFd(_, d) = &body[i] {
+                    let vals = d.values();
+                    if vals.len() >= 3 {
+                        let (lo, hi) = (vals[0], vals[vals.len() - 1]);
+                        let mut holes: Vec<isize> = vec![lo];
+                        for x in &vals[1..vals.len() - 1] {
+                            if r.chance(1, 2) {
+                                holes.push(*x);
+                            }
+                        }
+                        holes.push(hi);
+                        if holes.len() < vals.len() {
+                            let pos = i + 1 + r.below(body.len() - i);
+                            body.insert(pos, PG::InFd(T::Var(v), D::V(holes)));
+                        }
+                    }
+                }
+            }
+        }
         body
     }
 }
